@@ -127,6 +127,17 @@ def extract(repo, out_dir, target_dir, config="dev", log=None):
     return time.time() - t0
 
 
+KEEP_SETS = 200     # ~15 MB each; a full self-test run touches ~150 trees
+
+
+def _touch(d):
+    """A cache hit refreshes the set's age, so that a concurrent prune never removes a set in use."""
+    try:
+        os.utime(d, None)
+    except OSError:
+        pass
+
+
 def facts_dir(config="dev", repo=None, target=None):
     """Return the directory holding facts for the current tree of `repo`, extracting if needed.
     `target`: name of the cargo target dir under the cache to use (self-test workers use their own)."""
@@ -137,12 +148,14 @@ def facts_dir(config="dev", repo=None, target=None):
     d = os.path.join(base, f"{h}-{config}")
     ok = os.path.join(d, "OK")
     if os.path.isfile(ok):
+        _touch(d)
         return d, h, 0.0
     tname = target or f"target-{config}"
     lock = open(os.path.join(CACHE, f"extract-{tname}.lock"), "w")
     fcntl.flock(lock, fcntl.LOCK_EX)
     try:
         if os.path.isfile(ok):
+            _touch(d)
             return d, h, 0.0
         if os.path.isdir(d) and not os.path.isfile(ok):
             shutil.rmtree(d, ignore_errors=True)
@@ -176,7 +189,7 @@ def facts_dir(config="dev", repo=None, target=None):
                 return 0.0
         olds = sorted([(_mt(p_), p_) for p_ in glob.glob(os.path.join(base, "*-*")) if ".tmp" not in p_], reverse=True)
         now = time.time()
-        for mt_, o in olds[60:]:
+        for mt_, o in olds[KEEP_SETS:]:
             if mt_ and now - mt_ > 900:
                 shutil.rmtree(o, ignore_errors=True)
         return d, h, wall
